@@ -100,6 +100,15 @@ func opDuplicate(g *G) (interface{}, []uint64, int, interface{}) {
 		}
 		family += "/traitlen"
 	}
+	if g.chance(0.15) && len(src.Nodes) >= 2 {
+		// nodes (and sometimes genes) listed in another order than ascending id (hand-built / file-loaded genomes, e.g.
+		// sensors listed 2,1,3): the copy keeps every element at its position - sensor order is the network's input order
+		g.gr.Shuffle(len(src.Nodes), func(i, j int) { src.Nodes[i], src.Nodes[j] = src.Nodes[j], src.Nodes[i] })
+		if g.chance(0.3) {
+			unsortGenome(g, src)
+		}
+		family += "/unsorted"
+	}
 	before := dumpGenome(src)
 	newId := g.intn(1000)
 	dup, err := genetics.VerifDuplicate(src, newId)
